@@ -193,6 +193,94 @@ func c20Layer(r *fw.Rand, c *gen.Counter, ch *c10Chain, leaves []*gen.LeafRef) *
 	return l
 }
 
+// parkCtx is a context whose first Done() call parks until released: it holds a SetSource call between taking the
+// Blank's decision and handing the value to Dials.
+type parkCtx struct {
+	context.Context
+	once    sync.Once
+	parked  chan struct{}
+	release chan struct{}
+}
+
+func (p *parkCtx) Done() <-chan struct{} {
+	p.once.Do(func() {
+		close(p.parked)
+		<-p.release
+	})
+	return p.Context.Done()
+}
+
+// c20BlankConcurrent: two SetSource calls overlap; whatever order the Blank serialises them in, afterwards the view's
+// slot must hold the value of the inner source the Blank now delegates to.
+func c20BlankConcurrent(w *fw.Worker, i int, r *fw.Rand) {
+	leaves := c20Spec.LeafRefs()
+	c := &gen.Counter{}
+	native := &c10Chain{name: "none"}
+	ctx, cancel := context.WithCancel(context.Background())
+	defer cancel()
+	blank := &sourcewrap.Blank{}
+	d, err := dials.Config(ctx, &c20Cfg{A: -1, S: "dflt"}, blank)
+	desc := map[string]any{"mode": "blank-concurrent-setsource"}
+	if err != nil {
+		w.Violation(i, "config-error-with-blank", err.Error(), desc)
+		return
+	}
+	l1, l2 := c20Layer(r, c, native, leaves), c20Layer(r, c, native, leaves)
+	first := &c20Src{cur: l1}
+	var second dials.Source = &c20Src{cur: l2}
+	secondWatches := r.Bool()
+	if secondWatches {
+		second = &c20WSrc{c20Src{cur: l2, watching: true}}
+	}
+	desc["second_is_watcher"] = secondWatches
+	pc := &parkCtx{Context: ctx, parked: make(chan struct{}), release: make(chan struct{})}
+	done1 := make(chan error, 1)
+	go func() { done1 <- blank.SetSource(pc, first) }()
+	select {
+	case <-pc.parked:
+	case <-time.After(10 * time.Second):
+		w.Inconclusive(i, "first SetSource never reached its context check")
+		close(pc.release)
+		return
+	}
+	done2 := make(chan error, 1)
+	go func() { done2 <- blank.SetSource(ctx, second) }()
+	// give the second call the chance to overtake (it cannot while the first holds the Blank's lock)
+	var err2 error
+	got2 := false
+	select {
+	case err2 = <-done2:
+		got2 = true
+	case <-time.After(30 * time.Millisecond):
+	}
+	close(pc.release)
+	err1 := <-done1
+	if !got2 {
+		err2 = <-done2
+	}
+	if err1 != nil || err2 != nil {
+		w.Violation(i, "blank-concurrent-setsource-failed", fmt.Sprintf("errors: %v / %v", err1, err2), desc)
+		return
+	}
+	v, verr := blank.Value(ctx, dials.NewType(innerTypeOf(d)))
+	if verr != nil {
+		w.Violation(i, "blank-value-does-not-delegate", verr.Error(), desc)
+		return
+	}
+	res, cerr := dials.VerifCompose(&c20Cfg{A: -1, S: "dflt"}, []reflect.Value{v})
+	if cerr != nil {
+		w.Note("compose of blank value failed: " + cerr.Error())
+		return
+	}
+	w.Count("twin_views_compared", 1)
+	w.Count("blank_concurrent_setsource_cases", 1)
+	if df := gen.Diff(reflect.ValueOf(res).Elem(), reflect.ValueOf(*d.View())); df != "" {
+		w.Violation(i, "blank-view-and-inner-disagree-after-concurrent-setsource", fmt.Sprintf("the view does not show the value of the inner source the Blank delegates to (second call overtook the first: %v): %s", got2, df), desc)
+		return
+	}
+	w.Distinct(fmt.Sprintf("blank-concurrent|%v|%v", secondWatches, got2))
+}
+
 func runC20(w *fw.Worker) {
 	// the exhaustive Blank sequences are distributed over the shards
 	seqs := c20BlankSeqs(4)
@@ -210,6 +298,8 @@ func runC20(w *fw.Worker) {
 			c20Blank(w, i, r, string(seq))
 		case i%6 == 4:
 			c20Decoder(w, i, r)
+		case i%6 == 3 && i%4 == 1:
+			c20BlankConcurrent(w, i, r)
 		default:
 			c20Twin(w, i, r)
 		}
@@ -391,6 +481,23 @@ func c20Decoder(w *fw.Worker, i int, r *fw.Rand) {
 	w.Count("twin_views_compared", 1)
 	if df := gen.Diff(reflect.ValueOf(want), reflect.ValueOf(*d.View())); df != "" {
 		w.Violation(i, "transforming-decoder-view-differs", df, desc)
+		return
+	}
+	// the same decoder instance serves a second, different config type (a process with two Dials instances)
+	type other struct {
+		Alpha string              `dials:"alpha"`
+		Extra map[string]struct{} `dials:"extra"`
+		Wait  time.Duration       `dials:"wait"`
+	}
+	d2, err2 := dials.Config(context.Background(), &other{}, &static.StringSource{Data: fmt.Sprintf(`{"alpha": "x%d", "extra": ["e"], "wait": %d}`, uniq, uniq), Decoder: dec})
+	if err2 != nil {
+		w.Violation(i, "config-error-through-reused-transforming-decoder", err2.Error(), desc)
+		return
+	}
+	wantO := other{Alpha: fmt.Sprintf("x%d", uniq), Extra: map[string]struct{}{"e": {}}, Wait: time.Duration(uniq)}
+	w.Count("twin_views_compared", 1)
+	if df := gen.Diff(reflect.ValueOf(wantO), reflect.ValueOf(*d2.View())); df != "" {
+		w.Violation(i, "transforming-decoder-reused-for-second-type-differs", df, desc)
 		return
 	}
 	// errors are propagated: malformed document, and alias+primary both present
